@@ -362,7 +362,7 @@ func wlCellEvents(id int, sc Scenario, seed int64, pre *spg.WLRecipe, preWL *spg
 		}
 		e2 := *e
 		e2.Policy = nil
-		e2.Chunk = [][]int{{1}, {2, 1}, {3}, {1, 3}}[e.Rng.Intn(4)]
+		e2.Chunk = [][]int{{1}, {2, 1}, {3}, {1, 3}, {-1, 2, -1, 2}, {-1, -1, -1, -1, 4}, {1, -1, 1, -1, 1, 1}}[e.Rng.Intn(7)]
 		var res2 GenRes
 		out2 := e2.Run(plan, body(&res2))
 		if out2.Panic != nil {
